@@ -48,7 +48,8 @@ type RunOut struct {
 	Choices      []int32           `json:"choices,omitempty"`
 	MustExit     bool              `json:"mustexit,omitempty"`
 	Log          []string          `json:"log,omitempty"`
-	Extra        int               `json:"extra,omitempty"` // additional evaluations performed inside this run (e.g. crash points)
+	Extra        int               `json:"extra,omitempty"`   // additional evaluations performed inside this run (e.g. crash points)
+	Also         []Violation       `json:"also,omitempty"`    // further, different violations observed in the same run
 	InnerNT      []uint64          `json:"innernt,omitempty"` // hashes of the non-trivial inner evaluations (distinct cases inside one run)
 }
 
@@ -170,36 +171,36 @@ func loadKnown(path string) []KnownFinding {
 }
 
 type DriveOpts struct {
-	Prop       string
-	Tier       string
-	Seed       uint64
-	Workers    int
-	Self       string // path of this binary
-	Evidence   string
-	ReplayDir  string
-	KnownPath  string
-	Scratch    string
-	WallCap    time.Duration
-	RunsOverride int
+	Prop           string
+	Tier           string
+	Seed           uint64
+	Workers        int
+	Self           string // path of this binary
+	Evidence       string
+	ReplayDir      string
+	KnownPath      string
+	Scratch        string
+	WallCap        time.Duration
+	RunsOverride   int
 	SimgenManifest string
-	SelfTest   bool
+	SelfTest       bool
 }
 
 type agg struct {
-	evals      int
-	extra      int
-	distinct   map[uint64]bool
-	nontrivial int
+	evals         int
+	extra         int
+	distinct      map[uint64]bool
+	nontrivial    int
 	steps, sw, tf uint64
-	simNs      int64
-	faults     map[string]uint64
-	probes     map[string]uint64
-	states     map[uint64]bool
-	traces     map[uint64]bool
-	samples    []json.RawMessage
-	viol       []RunOut
-	inconcl    map[string]int
-	infra      []string
+	simNs         int64
+	faults        map[string]uint64
+	probes        map[string]uint64
+	states        map[uint64]bool
+	traces        map[uint64]bool
+	samples       []json.RawMessage
+	viol          []RunOut
+	inconcl       map[string]int
+	infra         []string
 }
 
 // Drive runs a property's tier across worker processes, writes the evidence file and returns
@@ -245,6 +246,9 @@ func Drive(o DriveOpts) int {
 				}
 				cmd := exec.Command(o.Self, args...)
 				cmd.Env = append(os.Environ(), "VERIF_WORLD_DIR="+filepath.Join(o.Scratch, fmt.Sprintf("world-w%d", w)))
+				if os.Getenv("GORACE") == "" {
+					cmd.Env = append(cmd.Env, "GORACE=halt_on_error=0 exitcode=0 log_path="+filepath.Join(o.Scratch, "race"))
+				}
 				cmd.Stderr = os.Stderr
 				err := cmd.Run()
 				last := -1
@@ -418,6 +422,13 @@ func (a *agg) absorb(path string) (lastIdx int) {
 		if out.Violation != nil {
 			a.viol = append(a.viol, out)
 		}
+		for i := range out.Also {
+			o2 := out
+			v := out.Also[i]
+			o2.Violation = &v
+			o2.Also = nil
+			a.viol = append(a.viol, o2)
+		}
 	}
 	return
 }
@@ -512,8 +523,14 @@ func Replay(path string, quiet bool) int {
 			fmt.Println("  ", l)
 		}
 	}
-	if out.Violation.Signature == rf.Signature {
-		fmt.Printf("REPRODUCED signature=%s\n", strconv.Quote(out.Violation.Signature))
+	same := out.Violation.Signature == rf.Signature
+	for _, v := range out.Also {
+		if v.Signature == rf.Signature {
+			same = true
+		}
+	}
+	if same {
+		fmt.Printf("REPRODUCED signature=%s\n", strconv.Quote(rf.Signature))
 	} else {
 		fmt.Printf("DIFFERENT signature=%s (file has %s)\n", strconv.Quote(out.Violation.Signature), strconv.Quote(rf.Signature))
 	}
@@ -557,8 +574,19 @@ func Minimise(path, self string) int {
 			out, _ := cmd.Output()
 			os.Remove(tmp)
 			var res RunOut
-			if json.Unmarshal(out, &res) != nil || res.Violation == nil || res.Violation.Signature != rf.Signature {
+			if json.Unmarshal(out, &res) != nil || res.Violation == nil {
 				continue
+			}
+			if res.Violation.Signature != rf.Signature {
+				found := false
+				for _, v := range res.Also {
+					if v.Signature == rf.Signature {
+						found = true
+					}
+				}
+				if !found {
+					continue
+				}
 			}
 			cur = cand
 			rf.Case = b
@@ -615,28 +643,28 @@ func writeEvidence(o DriveOpts, p Property, a *agg, wall float64, newViol int, k
 		perHour = float64(a.evals+a.extra) / wall * 3600
 	}
 	cov := map[string]any{
-		"evaluations":         a.evals + a.extra,
-		"distinct_nontrivial": len(a.distinct),
-		"nontrivial_runs":     a.nontrivial,
-		"rule":                p.Rule(),
-		"samples":             samples,
-		"simulated_runs":      a.evals,
-		"inner_evaluations":   a.extra,
-		"runs_per_hour":       int64(perHour),
-		"seeds_per_hour":      int64(perHour),
-		"simulated_time_s":    float64(a.simNs) / 1e9,
-		"decision_points":     a.steps,
-		"context_switches":    a.sw,
-		"timer_firings":       a.tf,
+		"evaluations":                    a.evals + a.extra,
+		"distinct_nontrivial":            len(a.distinct),
+		"nontrivial_runs":                a.nontrivial,
+		"rule":                           p.Rule(),
+		"samples":                        samples,
+		"simulated_runs":                 a.evals,
+		"inner_evaluations":              a.extra,
+		"runs_per_hour":                  int64(perHour),
+		"seeds_per_hour":                 int64(perHour),
+		"simulated_time_s":               float64(a.simNs) / 1e9,
+		"decision_points":                a.steps,
+		"context_switches":               a.sw,
+		"timer_firings":                  a.tf,
 		"distinct_interleavings_measure": "distinct FNV hashes of the context-switch sequence (goroutine, site) per run",
-		"distinct_interleavings": len(a.traces),
-		"distinct_model_states":  len(a.states),
-		"faults_fired":        a.faults,
-		"reach_probes":        a.probes,
-		"inconclusive":        a.inconcl,
-		"known_findings_seen": knownSeen,
-		"real_vs_stub":        p.RealStub(),
-		"workers":             o.Workers,
+		"distinct_interleavings":         len(a.traces),
+		"distinct_model_states":          len(a.states),
+		"faults_fired":                   a.faults,
+		"reach_probes":                   a.probes,
+		"inconclusive":                   a.inconcl,
+		"known_findings_seen":            knownSeen,
+		"real_vs_stub":                   p.RealStub(),
+		"workers":                        o.Workers,
 	}
 	if o.SimgenManifest != "" {
 		if b, err := os.ReadFile(o.SimgenManifest); err == nil {
